@@ -340,6 +340,55 @@ func TestStandinArchivePresentation(t *testing.T) {
 		f["zz_unknown.txt"] = "a,b\n1,2\n"
 		*names = append([]string{"zz_unknown.txt"}, *names...)
 	}, zip.Deflate))
+	// extra members whose names merely resemble a table: in a sub-directory, in another case, with a suffix. They
+	// must never stand in for (or override) a table, whether or not the archive root has that table.
+	decoy := "stop_id,stop_name\nDECOY,decoy\n"
+	for _, extraName := range []string{"old/stops.txt", "feed/stops.txt", "STOPS.TXT", "stops.txt.bak", "./stops.txt", "a/b/transfers.txt"} {
+		extraName := extraName
+		for _, first := range []bool{true, false} {
+			first := first
+			check(fmt.Sprintf("extra member %q (first=%v)", extraName, first), build(func(f map[string]string, names *[]string) {
+				f[extraName] = decoy
+				if first {
+					*names = append([]string{extraName}, *names...)
+				} else {
+					*names = append(*names, extraName)
+				}
+			}, zip.Deflate))
+		}
+	}
+	dropTransfers := func(f map[string]string, names *[]string) {
+		delete(f, "transfers.txt")
+		var kept []string
+		for _, n := range *names {
+			if n != "transfers.txt" {
+				kept = append(kept, n)
+			}
+		}
+		*names = kept
+	}
+	{
+		base2, err := ParseStatic(build(dropTransfers, zip.Deflate), ParseStaticOptions{})
+		if err != nil {
+			sinFail(t, "archive-presentation", "feed without transfers.txt", "ParseStatic failed: "+err.Error())
+		}
+		for _, extraName := range []string{"previous/transfers.txt", "TRANSFERS.TXT", "x/y/transfers.txt"} {
+			extraName := extraName
+			cases++
+			got, err := ParseStatic(build(func(f map[string]string, names *[]string) {
+				dropTransfers(f, names)
+				f[extraName] = "from_stop_id,to_stop_id,transfer_type\nst,p2,2\n"
+				*names = append(*names, extraName)
+			}, zip.Deflate), ParseStaticOptions{})
+			desc := fmt.Sprintf("no transfers.txt at the root, extra member %q", extraName)
+			if err != nil {
+				sinFail(t, "archive-presentation", desc, "ParseStatic failed: "+err.Error())
+			}
+			if !reflect.DeepEqual(got, base2) {
+				sinFail(t, "archive-presentation", desc, "the extra member changed the result (an optional table absent from the root must stay absent)")
+			}
+		}
+	}
 	check("no trailing newline", build(func(f map[string]string, _ *[]string) {
 		for k, v := range f {
 			f[k] = strings.TrimSuffix(v, "\n")
